@@ -1,6 +1,6 @@
 (* C04 — issued tokens never exceed what was granted or what the client may ask for.
    Statements only; proofs are in Proofs/ScopeProofs.v and Proofs/C04Proofs.v. *)
-From Verif Require Import Base Scope Types Prog Pop Token Authorize System Config Run Monitors OneShot ScopeProofs Hoare C04Proofs C04More C04Resources.
+From Verif Require Import Base Scope Types Prog Pop Token Authorize System Config Run Monitors OneShot ScopeProofs Hoare C04Proofs C04More C04Resources C02Proofs C04Artifacts.
 Local Open Scope N_scope.
 
 (* A requested scope string is allowed for a client iff it is empty or every space-separated
@@ -66,6 +66,48 @@ Theorem authorize_types_registered : forall cfg p c,
   (is_empty (p_scopes p) = false -> are_scopes_allowed (c_scopes c) (cf_scopes cfg) (p_scopes p) = true).
 Proof. exact validate_params_types. Qed.
 Print Assumptions authorize_types_registered.
+
+(* ... and what the authorization endpoint HANDS OUT follows that validation, for every response type -
+   code, implicit and the hybrid ones (`code token`, `code id_token`, `code id_token token`), whose
+   `token` / `id_token` halves are implicit-grant artifacts: in every reachable state of every history
+   (any configuration, clients - also clients whose response_types list values their grant_types do not
+   cover - and interleaving; request direct or redeeming a pushed request), a navigation of GET/POST
+   /authorize carries a code only for a client registered for authorization_code, and an access token or
+   an ID token only for a client registered for implicit *)
+Theorem authorize_artifacts_registered : forall w dyn ops n now r m u nv,
+  let st := s_store (fst (run_from w (init_state dyn) 0 ops)) in
+  snd (run_seq (init_auth w n now r) st) = ONav m u nv ->
+  exists c, snd (run_seq (get_client w (ar_client r)) st) = Some c /\
+    (is_nil (n_code nv) = false -> has_grant GAuthorizationCode (c_grants c) = true) /\
+    (is_nil (n_at nv) = false \/ n_idt nv = true -> has_grant GImplicit (c_grants c) = true).
+Proof. exact authorize_artifacts_registered_all. Qed.
+Print Assumptions authorize_artifacts_registered.
+
+(* the same at the end of a multi-step interaction: in every reachable state the response type recorded
+   in a stored session is aligned with the grant types of the session's client (invariant over all
+   histories), so /authorize/{callback} hands a code / access token / ID token only to a client
+   registered for the grant type behind it *)
+Theorem callback_artifacts_registered : forall w dyn ops n now r m u nv,
+  let st := s_store (fst (run_from w (init_state dyn) 0 ops)) in
+  snd (run_seq (continue_auth w n now r) st) = ONav m u nv ->
+  exists s, find (fun s => ideq (a_cb s) (cb_id r)) (st_asess st) = Some s /\
+    forall c, client_of w dyn (a_client s) = Some c ->
+      (is_nil (n_code nv) = false -> has_grant GAuthorizationCode (c_grants c) = true) /\
+      (is_nil (n_at nv) = false \/ n_idt nv = true -> has_grant GImplicit (c_grants c) = true).
+Proof. exact callback_artifacts_registered_all. Qed.
+Print Assumptions callback_artifacts_registered.
+
+(* non-vacuity: a static client registered for authorization_code only whose response_types list a hybrid
+   value gets a code for `code` and no access token for `code token` *)
+Example hybrid_without_implicit_refused :
+  let c1 := mkClient 1 false [GAuthorizationCode] ["code"; "code token"] ["https://c/cb"] "openid" CibaNone false false false false false false false 0 false in
+  let w := mkWorld (match build POpenID [WithAuthorizationCodeGrant; WithImplicitGrant] with Some c => c | None => base_config POpenID end) [c1] in
+  let p rt := mkParams 0 "https://c/cb" "" rt "openid" "s" "" PkEmpty "" 0 "" 0 "" [] in
+  let a rt := OpAuthorize (mkAReq 1 (p rt) true (PolSuccess "alice" "openid" [])) in
+  match run w [] [a "code"; a "code token"] with
+  | [Out (ONav _ _ n1); Out (ONav _ _ n2)] => is_nil (n_code n1) = false /\ n_at n2 = 0 /\ n_code n2 = 0 /\ n_err n2 = Some EInvalidRequest
+  | _ => False end.
+Proof. vm_compute. auto. Qed.
 
 (* ---- resource indicators (RFC 8707) ---- *)
 
